@@ -4,3 +4,7 @@ from harness import props_e1
 CHECKS = {}
 for _p in ("C01", "C02", "C03", "C04", "C05", "C06", "C07", "C08", "C10"):
     CHECKS[_p] = props_e1.check
+
+from harness import props_alg
+CHECKS["C17"] = props_alg.check_c17
+CHECKS["C13"] = props_alg.check_c13
